@@ -136,6 +136,8 @@ def single_window_blocks(ctx, rng):
         freq = hvgen.gen_freq(rng)
         rows = [hvgen.gen_curve_set(rng, freq, k, outliers=False) for k in counts]
         azs = sorted(float(a) for a in rng.choice(np.arange(0, 180, 5), naz, replace=False))
+        if j % 4 == 1:
+            azs[0] = float(rng.choice([1e-05, 2.5e-06, 1e-10]))     # printed without a decimal point ('1e-05'): the witness class of repaired defect C12-b
         m = Mirror.az(7000 + j, freq, rows, azs)
         m.obj.meta["processing_method"] = "azimuthal"
         fname = os.path.join(WORK, f"c12_s{j}.csv")
